@@ -65,3 +65,15 @@ claim('C07', 'exploration',
       'Held on the seeded values generated; depth bounded by the C stack.  Correctness of the derived doubles is C10\'s.',
       'runtime monitoring: differential store/read-back over five storage paths and three observers under ASan/UBSan with ledger',
       'DESIGN.md section 4, C07')
+
+claim('C01', 'exploration',
+      'Documents written by an independent, specification-derived CIF writer from an abstract content (blocks, one level '
+      'of save frames, scalars, loops, nested lists / tables, all permitted Unicode classes) in randomly drawn layouts '
+      '(white space / comment runs, keyword case, every admissible delimiter per value, folded / prefixed text fields, '
+      'tokens pushed to the line-length limit); enumerated families cover every ordered pair of 16 presentations x 4 '
+      'contexts x separators, every ASCII character at every lexical position (CIF 2.0 and 1.1) and text-field protocol '
+      'corner texts.  The parse must report no error, return CIF_OK and dump to exactly the abstract content.',
+      'Held on the seeded documents; trusts the writer\'s reading of the grammar (cross-validated by thousands of '
+      'agreeing parses).  Lines <= 2048, one level of save frames, nesting bounded by the generator.',
+      'runtime monitoring: generator-as-oracle differential parsing under ASan/UBSan',
+      'DESIGN.md section 4, C01')
